@@ -281,6 +281,26 @@ fn main() {
             println!("on_disk={}", join(&on_disk));
             println!("in_version={}", join(&in_version));
         }
+        // fresh_open_manifests : a new database is opened with reuse_log_files off (the open writes a second manifest); the ordered file
+        // operations are recorded: no manifest may be created twice, and CURRENT must never name a manifest that is being rewritten
+        "fresh_open_manifests" => {
+            let fs = rdbv::faultfs::FaultFs::new();
+            let mut o = raindb::DbOptions::with_memory_env();
+            o.filesystem_provider = std::sync::Arc::new(fs.clone());
+            o.db_path = "db".to_string();
+            o.create_if_missing = true;
+            o.reuse_log_files = false;
+            {
+                let _db = raindb::DB::open(o.clone()).expect("open");
+            }
+            let log = fs.take_log();
+            let creates: Vec<String> = log.iter().filter(|l| l.starts_with("create") && l.contains("MANIFEST")).map(|l| l.rsplit('/').next().unwrap_or("").to_string()).collect();
+            let mut uniq = creates.clone();
+            uniq.sort();
+            uniq.dedup();
+            println!("manifest_creates={}", creates.join(","));
+            println!("created_twice={}", creates.len() != uniq.len());
+        }
         // trivial_move n0 n1 : level 1 holds n0 (1..2) adjacent files which are the chosen inputs, level 2 holds n1 files that
         // overlap them; after the real input finalisation the manifest is asked whether this is a trivial move
         "trivial_move" => {
